@@ -235,11 +235,11 @@ def gen_norm(rng, n, tier="quick"):
             elif sp < 0.6:
                 darg, dtok = d, I(d.toordinal())
             elif sp < 0.8:
-                darg = datetime.datetime(d.year, d.month, d.day, rng.randint(0, 23), 30)
+                darg = datetime.datetime(d.year, d.month, d.day, rng.choice([0, 23, rng.randint(0, 23)]), 30)
                 dtok = "W%d" % wall_us(darg)
             else:
                 z2 = zones.rand_zone(rng, d)
-                naive = datetime.datetime(d.year, d.month, d.day, rng.randint(0, 23), 30)
+                naive = datetime.datetime(d.year, d.month, d.day, rng.choice([0, 23, rng.randint(0, 23)]), 30)
                 darg = naive.replace(tzinfo=z2.tzinfo)
                 dtok = "A%d:%d" % (wall_us(naive), z2.id)
             descr["date"] = repr(darg)
